@@ -160,6 +160,8 @@ def run(ctx):
             dig = [(c.split("::")[-1], a) for _, c, a in E.calls(prog, f, keep=r"digest::Digest")]
             ok = [d[0] for d in dig] == ["new", "update", "finalize"] and re.search(data_rx, dig[1][1][1]) is not None
             ctx.ob("R3", fname.split("::", 1)[1] + ":new-update(input)-finalize", ok, "%s:%d" % (f.file, f.line), "digest calls %s" % [(d[0], [x[:60] for x in d[1][1:]]) for d in dig], f)
+    from .. import hashing as HX
+    HX.hash_bytes_exact(ctx, "R3")
     f = prog.fn("essential_vm::crypto::sha256")
     if f:
         E.has_call(ctx, "R3", "Sha256:pushes-the-4-hash-words", prog, f, r"stack::Stack::extend$", ["^stack$", r"^essential_types::convert::word_4_from_u8_32\(<T as std::convert::Into<U>>::into\(<D as digest::digest::Digest>::finalize\("])
